@@ -50,6 +50,40 @@ first_missed.update({
     "C17-r3m2": "objective values were O(1) and a run stopped by tolf while still move-limited was not judged at all (new stop-criterion oracle)",
     "C19-r3m1": "non-zero entries were all >= 1e-2 in magnitude",
 })
+first_missed.update({
+    "C01-r4m1": "Scaling limits (minval/maxval) and inputs were all positive",
+    "C02-r4m3": "one signal used twice by one module only occurred in interchangeable positions (i,i->)",
+    "C03-r4m1": "sparse matrices were rebuilt from dense values, so explicit zeros never kept the pattern (not evaluated before the widening: the author's report was read first)",
+    "C03-r4m2": "all networks were built bottom-up (same note)",
+    "C03-r4m3": "no aggregation with undamped AggScaling in the zoo (same note)",
+    "C04-r4m1": "purity was only observed at differentiable points (no exact zero in ComplexNorm's input)",
+    "C04-r4m3": "seeds were generic: no column whose entries cancel exactly",
+    "C05-r4m1": "CG matrices had n <= 40: no run needed more than the 50 iterations of the restart interval",
+    "C05-r4m2": "the wrapper rows saw exact repeats and new right-hand sides, nothing in between",
+    "C05-r4m3": "wrapper rows used generic classes without decoupled dofs; C06 (pattern family) is where this lives",
+    "C06-r4m2": "every generated matrix had a full non-zero diagonal",
+    "C06-r4m3": "right-hand sides were exactly in the span or far from it, never between tol and sqrt(tol) off",
+    "C07-r4m2": "no symmetric indefinite sparse matrix with a tiny same-sign diagonal (saddle-point systems)",
+    "C07-r4m3": "the symmetric flag was only given for real symmetric matrices",
+    "C09-r4m1": "overrides were only checked metamorphically on random fields (both sides share a shortcut for uniform fields)",
+    "C09-r4m2": "user kernels were at least 2-D",
+    "C09-r4m3": "DensityFilter radii stayed below 11.3 elements on wide domains",
+    "C10-r4m2": "every response depended on every variable signal (no None sensitivities)",
+    "C10-r4m3": "runs always started from clean signals",
+    "C11-r4m1": "nmodes was capped at n-2 for every pencil (ARPACK's limit for the general case)",
+    "C12-r4m2": "alpha was drawn from (1e-6, 1]: the end of the range alpha = 0 never occurred",
+    "C13-r4m2": "a customised numbering table was only checked against *other* instances",
+    "C14-r4m1": "xi_0 was drawn from [0.2, 0.8]: the documented end xi_0 = 0 never occurred",
+    "C14-r4m2": "direction vectors had exactly zero off-axis entries",
+    "C14-r4m3": "domains stayed below 32767 elements",
+    "C15-r4m1": "add_dyad was always called with both factors",
+    "C16-r4m2": "parameters were fixed at construction",
+    "C16-r4m3": "vectors spanned at most four decades and |p| <= 30",
+    "C17-r4m1": "l1l2tol >= 1e-9 and objective sensitivities O(1)",
+    "C18-r4m1": "sensitivities under a slice reset were always finite",
+    "C18-r4m2": "tuple indices held only slices and integers",
+    "C20-r4m1": "arrays stayed far below 2^18 values",
+})
 print("| id | defect (needs) | caught by (quick tier) | first evaluation |")
 print("|---|---|---|---|")
 for f in sorted(glob.glob(os.path.join(HERE, "seeded", "*", "meta.json"))):
